@@ -237,6 +237,7 @@ HARNESSES = {
     "literal": dict(opt="-O1"),
     "file": dict(opt="-O1"),
     "prelude": dict(opt="-O1"),
+    "state": dict(opt="-O1"),
     "json": dict(opt="-O1", sanitize=True, compiler="clang++-14", flags=["-fno-sanitize=signed-integer-overflow"]),
     "stl": dict(opt="-O1", sanitize=True, compiler="clang++-14"),
 }
@@ -495,6 +496,25 @@ def lean_obligations(ctx, prop_module_names, extra_targets=("chaimodel",)):
 
 
 # ---------------------------------------------------------------- extraction step
+EXTRACTORS = [("e_arith", "Arith.lean"), ("e_lit", "Lit.lean"), ("e_stl", "Stl.lean"), ("e_file", "File.lean"), ("e_json", "Json.lean"),
+              ("e_prelude", "Prelude.lean"), ("e_env", "Env.lean")]
+
+
+def refresh_all_gen():
+    """Regenerate every Gen table from /repo's current tree (all checks share one Lean library, so a table left over
+    from an earlier run against a different tree must never be reused). Unrecognised source -> pinned snapshot."""
+    import importlib
+    sys.path.insert(0, os.path.join(VERIF, "extract"))
+    for modname, out in EXTRACTORS:
+        try:
+            mod = importlib.import_module(modname)
+            write_if_changed(os.path.join(GEN, out), mod.main(REPO, GEN))
+        except Exception:
+            exp = os.path.join(EXPECTED, out)
+            if os.path.exists(exp):
+                write_if_changed(os.path.join(GEN, out), open(exp).read())
+
+
 def run_extractor(ctx, name, module, outfile):
     """Run translator `module.main(REPO, GEN)` -> Gen/<outfile>. On failure the committed snapshot
     (extract/expected) is used so that the driver still builds, and the obligation is recorded."""
